@@ -528,6 +528,47 @@ func TestVerifC06Replay(t *testing.T) {
 	}
 }
 
+// ---------------------------------------------------------------- R: the real regionSet against RegionSet.tla
+
+type c06RSStep struct {
+	Act string `json:"act"`
+	R   struct {
+		B int64 `json:"b"`
+		E int64 `json:"e"`
+	} `json:"r"`
+}
+
+// TestVerifC06RegionSet replays walks over the state graph of RegionSetCheck on a real regionSet: rs.add(region{b,e}),
+// then the slice rs.rs and rs.totalSize() are recorded as they are.
+func TestVerifC06RegionSet(t *testing.T) {
+	in, out := os.Getenv("VERIF_RS_IN"), os.Getenv("VERIF_RS_OUT")
+	if in == "" || out == "" {
+		t.Skip("VERIF_RS_IN/VERIF_RS_OUT not set")
+	}
+	raw, err := os.ReadFile(in)
+	if err != nil {
+		t.Fatal(err)
+	}
+	var walks [][]c06RSStep
+	if err := json.Unmarshal(raw, &walks); err != nil {
+		t.Fatal(err)
+	}
+	log := c06NewLog(t, out)
+	defer log.f.Close()
+	for _, w := range walks {
+		var rs regionSet
+		log.emit(map[string]any{"ev": "Reset"})
+		for _, st := range w {
+			rs.add(region{st.R.B, st.R.E})
+			cur := make([][]int64, len(rs.rs))
+			for i, g := range rs.rs {
+				cur[i] = []int64{g.b, g.e}
+			}
+			log.emit(map[string]any{"ev": "Add", "b": st.R.B, "e": st.R.E, "rs": cur, "total": rs.totalSize()})
+		}
+	}
+}
+
 // ---------------------------------------------------------------- T: free-running goroutines
 
 func TestVerifC06Free(t *testing.T) {
@@ -581,6 +622,21 @@ func TestVerifC06Free(t *testing.T) {
 		rig.srv.slow = rng.Intn(2) == 0
 		rig.srv.delay = time.Duration(rng.Intn(300)) * time.Microsecond
 		log.emit(map[string]any{"ev": "Reset", "size": size, "chunk": chunk, "prefetch": prefetch, "cache": kind})
+		// prelude of every second trace with at least 5 chunks: first chunk, last chunk, then one in the middle, so that
+		// the region set has to insert between two non-adjacent regions (honest server, nobody else running)
+		if nchunks := (size + chunk - 1) / chunk; tr%2 == 1 && nchunks >= 5 {
+			rig.srv.mu.Lock()
+			rig.srv.script = []string{"multi", "multi", "multi", "multi"}
+			rig.srv.mu.Unlock()
+			mid := chunk * (2 + rng.Int63n(nchunks-4)) // neither adjacent to the first nor to the last chunk
+			rig.call("pre", "read", 0, 1, true)
+			rig.call("pre", "read", size-1, 1, true)
+			rig.call("pre", "read", mid, 1, true)
+			rig.srv.mu.Lock()
+			rig.srv.script = nil
+			rig.srv.mu.Unlock()
+			stats["preludes"]++
+		}
 		ng := 3 + rng.Intn(4)
 		var wg sync.WaitGroup
 		// a few hot (off,len) pairs make goroutines ask for the same chunk sets (shared single-flight fetches)
